@@ -167,6 +167,21 @@ def tables():
         if not ok:
             raise TranslateError("NanTestTrans.validate does more than delegate to super()")
     out["par"]["TNanTest"], out["loopchk"]["TNanTest"] = out["par"]["TReadOnly"], out["loopchk"]["TReadOnly"]
+    # ---- get_unique_region_name: the counter must be keyed on exactly what the name is built from
+    fn, mod = _method_ast(PSyDataTrans, "get_unique_region_name")
+    if fn is None:
+        raise TranslateError("PSyDataTrans.get_unique_region_name not found")
+    keys = [n for n in ast.walk(fn) if isinstance(n, ast.Assign) and len(n.targets) == 1
+            and isinstance(n.targets[0], ast.Name) and n.targets[0].id == "key"]
+    if len(keys) != 1:
+        raise TranslateError("get_unique_region_name: expected exactly one assignment to 'key'")
+    src = ast.unparse(fn)
+    out["psy_key_expr"] = ast.unparse(keys[0].value)
+    out["psy_key_is_name"] = (out["psy_key_expr"] == "module_name + '|' + region_name"
+                              and "idx = PSyDataTrans._used_kernel_names.get(key, 0)" in src
+                              and "PSyDataTrans._used_kernel_names[key] = idx + 1" in src
+                              and "region_name += f':r{idx}'" in src
+                              and src.index("key = ") < src.index("region_name += f':r{idx}'"))
     return out
 
 
@@ -198,6 +213,8 @@ def generate():
     for t in TKINDS:
         L.append("  | %s => %s" % (t, "true" if tb["loopchk"][t] else "false"))
     L += ["  end.",
+          "(* get_unique_region_name: key expression found in the source: %s *)" % tb["psy_key_expr"].replace("*)", "* )"),
+          "Definition gen_psy_key_is_name : bool := %s." % ("true" if tb["psy_key_is_name"] else "false"),
           "Definition gen_tables : tables :=",
           "  mkTables (fun t k => existsb (nkind_eqb k) (gen_excl t)) gen_loopdir gen_acc gen_par gen_loopchk.",
           "(* the faithful model of the tree under test *)",
